@@ -604,6 +604,9 @@ static void run(const hx_plan_t *p, hx_result_t *res)
             if (a->kind == PA_TPWAIT && want(6) && tp_slot_is_ptg[a->a]) {
                 if (NINST && !(tmax[a->a] < act_end[0][ai]))
                     hx_fail(res, "wait-returned-early", "parsec_taskpool_wait(%d) returned at stamp %llu but a task of it ended at %llu", a->a, (unsigned long long)act_end[0][ai], (unsigned long long)tmax[a->a]);
+                else if (SH.nranks == 1 && tp_member_of[a->a] < 0 && cb_count[a->a] == 1 && !(cb_stamp[a->a] < act_end[0][ai]))
+                    hx_fail(res, "wait-returned-early", "parsec_taskpool_wait(%d) returned at stamp %llu, before the completion callback of the taskpool ran (stamp %llu)", a->a,
+                            (unsigned long long)act_end[0][ai], (unsigned long long)cb_stamp[a->a]);
             }
         }
         for (int e = 0; e < NEPOCH && e < 16 && want(6) && !res->vclass; e++) {
